@@ -39,6 +39,8 @@
 #include <gatery/hlim/supportNodes/Node_SignalTap.h>
 #include <gatery/hlim/coreNodes/Node_Signal2Clk.h>
 #include <gatery/hlim/coreNodes/Node_Signal2Rst.h>
+#include <gatery/hlim/supportNodes/Node_Memory.h>
+#include <gatery/hlim/supportNodes/Node_MemPort.h>
 #include <gatery/scl/synthesisTools/IntelQuartus.h>
 #include <gatery/scl/synthesisTools/XilinxVivado.h>
 #include <gatery/frontend/Attributes.h>
@@ -214,6 +216,12 @@ static std::string kindTag(BaseNode *n) {
 			}
 		return s;
 	}
+	if (auto *mp = dynamic_cast<Node_MemPort*>(n)) {
+		// what the port requires of its inputs: Node_MemPort::connectAddress asserts getExpectedAddressBits(), data = word width
+		if (mp->getMemory() == nullptr || mp->getBitWidth() == 0) return "other";
+		return "memport:" + std::to_string(mp->getExpectedAddressBits()) + "." + std::to_string(mp->getBitWidth());
+	}
+	if (auto *m = dynamic_cast<Node_Memory*>(n)) return "memory:" + std::to_string(m->getInitializationDataWidth());
 	return "other";
 }
 
@@ -639,7 +647,18 @@ static void runCase(const nd::Program &prog, const std::string &v, int slack, co
 	};
 	try {
 		DesignScope design;
-		gtry::Clock clock({ .absoluteFrequency = 100'000'000 });
+		// optional `clockcfg rst=sync|async|none act=high|low memrst=sync|async|none initmem=0|1` selects the reset behaviour of the design clock
+		ClockConfig ccfg; ccfg.absoluteFrequency = hlim::ClockRational(100'000'000, 1);
+		auto rt = [](const std::string &v) { return v == "async" ? ClockConfig::ResetType::ASYNCHRONOUS : v == "none" ? ClockConfig::ResetType::NONE : ClockConfig::ResetType::SYNCHRONOUS; };
+		for (auto &st : prog.stmts) if (st[0] == "clockcfg") for (size_t i = 1; i < st.size(); i++) {
+			if (st[i].rfind("rst=", 0) == 0) ccfg.resetType = rt(st[i].substr(4));
+			else if (st[i].rfind("memrst=", 0) == 0) ccfg.memoryResetType = rt(st[i].substr(7));
+			else if (st[i] == "act=low") ccfg.resetActive = ClockConfig::ResetActive::LOW;
+			else if (st[i] == "act=high") ccfg.resetActive = ClockConfig::ResetActive::HIGH;
+			else if (st[i] == "initmem=0") ccfg.initializeMemory = false;
+			else if (st[i] == "initmem=1") ccfg.initializeMemory = true;
+		}
+		gtry::Clock clock(ccfg);
 		ClockScope cs(clock);
 		Interp9 in;
 		in.mainClock = &clock;
